@@ -867,6 +867,24 @@ func (x *Exec) evalCall(env *SpecEnv, e ECall) Val {
 			t = mkEq(held, intLit(0))
 		}
 		return Val{T: t, Typ: types.Typ[types.Bool]}
+	case "entry":
+		// entry(p): the value parameter p had when the function was entered (old(p) only
+		// switches the heap state: a parameter the code reassigns reads as its current value)
+		if id, ok := e.Args[0].(EIdent); ok {
+			if v, ok := env.vars[id.Name]; ok {
+				return v // at a call site: the argument
+			}
+		}
+		if id, ok := e.Args[0].(EIdent); ok && env.fr != nil {
+			for _, p := range env.fr.fn.Params {
+				if p.Name() == id.Name {
+					if v, ok := env.fr.vals[p]; ok {
+						return v
+					}
+				}
+			}
+		}
+		panic(specErr("entry(): argument must name a parameter of the function"))
 	case "inmap":
 		// inmap(m, k): key k is present in the Go map m
 		m := x.evalVal(env, e.Args[0])
